@@ -297,6 +297,42 @@ fn conc_case(rec: &mut Recorder, m0: &Map, progs: &[Vec<Op>], sched: &[usize]) -
     res
 }
 
+/// `free` cases: 2-6 OS threads hammer one real FrimMap with writers (insert / remove / retain / replace) without any
+/// scheduling; when they are done the map is at rest, and every way of looking at it must show the same map: `len()`
+/// = number of entries iterated, `is_empty()` accordingly, `get(k)` = the iterated value of k, no key twice. Whatever a
+/// writer keeps besides the published snapshot (a cached length, an index) has to agree with it once nobody writes.
+fn free_case(rec: &mut Recorder, seed: u64, nt: usize, nops: usize) -> bool {
+    let map: Arc<FrimMap<u64, u64>> = Arc::new(FrimMap::default());
+    let barrier = Arc::new(std::sync::Barrier::new(nt));
+    let hs: Vec<_> = (0..nt).map(|t| {
+        let (map, barrier) = (map.clone(), barrier.clone());
+        std::thread::spawn(move || {
+            let mut r = Rng::new(seed.wrapping_mul(31).wrapping_add(t as u64));
+            barrier.wait();
+            for i in 0..nops {
+                let k = r.below(6);
+                match r.below(10) {
+                    0..=5 => { map.insert(k, (t * 1000 + i) as u64); }
+                    6 | 7 => { map.remove(&k); }
+                    8 => { map.retain(move |kk, _| *kk != k); }
+                    _ => { map.replace(build(&vec![(k, 7), ((k + 1) % 6, 8)])); }
+                }
+            }
+        })
+    }).collect();
+    for h in hs { h.join().expect("free thread"); }
+    let snap = content(&map);
+    let (n, e) = (map.len(), map.is_empty());
+    let mut keys: Vec<u64> = snap.iter().map(|x| x.0).collect(); keys.sort(); let nk = keys.len(); keys.dedup();
+    let gets_ok = (0..6).all(|k| map.get(&k) == snap.iter().find(|x| x.0 == k).map(|x| x.1));
+    let imp = format!("rest len-agrees={} empty-agrees={} gets-agree={} keys-unique={}", n == snap.len(), e == snap.is_empty(), gets_ok, keys.len() == nk);
+    let ok = n == snap.len() && e == snap.is_empty() && gets_ok && keys.len() == nk;
+    let orc = if ok { "ok".to_string() } else { format!("fail rest:views-disagree at rest after {nt} threads x {nops} writes: len()={n} is_empty()={e} iterated={} entries, gets agree={gets_ok}, keys unique={}", snap.len(), keys.len() == nk) };
+    rec.bump("free.cases");
+    rec.case(format!("free|{seed}|{nt}|{nops}"), imp, orc, nt >= 2);
+    ok
+}
+
 fn main() {
     let args = parse_args();
     let t0 = Instant::now();
@@ -305,6 +341,9 @@ fn main() {
     if let Some(path) = &args.replay {
         for line in verif_harness::replay_cases(path) {
             let parts: Vec<&str> = line.split('|').collect();
+            if parts[0] == "free" {
+                for r in 0..300 { if !free_case(&mut rec, parts[1].parse::<u64>().unwrap() + r, parts[2].parse().unwrap(), parts[3].parse().unwrap()) { break; } }
+            }
             if parts[0] == "conc" {
                 let m0 = parse_map(parts[1]);
                 let progs: Vec<Vec<Op>> = parts[2].split('/').map(|p| p.split_whitespace().map(parse_op).collect()).collect();
@@ -322,6 +361,13 @@ fn main() {
     rec.variant("found", if both { "as-written" } else { "repaired" });
 
     let mut g = Gen { rng: Rng::new(args.seed), next_val: 100 };
+
+    // 0b. free-running writers, then the map at rest
+    for i in 0..(if args.thorough { 4000 } else { 400 }) {
+        let nt = g.rng.range(2, 6) as usize;
+        let nops = g.rng.range(5, 200) as usize;
+        free_case(&mut rec, args.seed * 100_000 + i, nt, nops);
+    }
 
     // 1. sequential
     let nseq = if args.thorough { 20000 } else { 2000 };
